@@ -310,6 +310,11 @@ Grid::add_constraint(const Constraint& c) {
   if (!marked_empty()) {
     add_constraint_no_check(c);
   }
+  else if (c.is_inequality() && !c.is_inconsistent() && !c.is_tautological()) {
+    // The kind of the constraint is validated even when the grid
+    // is known to be empty.
+    throw_invalid_constraint("add_constraint(c)", "c");
+  }
 }
 
 inline void
